@@ -56,6 +56,16 @@ func (s LBSpec) honest() bool {
 	return s.PSet == "" && s.PSeed == "" && s.PWho == "" && s.VSet == "" && s.VSeed == "" && s.CSet == "" && s.CSeed == ""
 }
 
+func (s LBSpec) distinctNames() int {
+	m := map[string]bool{}
+	for _, v := range []string{s.PSet, s.PSeed, s.PWho, s.VSet, s.VSeed, s.CSet, s.CSeed} {
+		if v != "" {
+			m[v] = true
+		}
+	}
+	return len(m)
+}
+
 func (s LBSpec) deviations() int {
 	n := 0
 	for _, v := range []string{s.PSet, s.PSeed, s.PWho, s.VSet, s.VSeed, s.CSet, s.CSeed} {
@@ -270,34 +280,51 @@ func (c *Config) buildLB(s LBSpec, f *Forged) error {
 }
 
 // lbSpecs: the full product (proposer set × proposer seed × proposer choice × precommit set × precommit seed), and in
-// certificate rounds (certificate set × certificate seed) with everything else honest and paired with the precommit set.
+// certificate rounds (certificate set × certificate seed × precommit set) with everything else honest.
 func (x *ctx) lbSpecs() []LBSpec {
 	c := x.c
 	base := LBSpec{Kind: "lookback", Net: params.NetworkId(), Cfg: c.Name, Ver: uint64(c.Version), Cert: c.certPair != nil}
 	var out []LBSpec
-	for _, ps := range lbSets {
-		for _, pd := range lbSeeds {
-			for _, pw := range []string{"", "newcomer"} {
-				for _, vs := range lbSets {
-					for _, vd := range lbSeeds {
-						s := base
-						s.PSet, s.PSeed, s.PWho, s.VSet, s.VSeed = ps, pd, pw, vs, vd
-						out = append(out, s)
+	seen := map[string]bool{}
+	add := func(s LBSpec) {
+		if !seen[s.Key()] {
+			seen[s.Key()] = true
+			out = append(out, s)
+		}
+	}
+	if !c.IsCert || !x.r.Quick() {
+		for _, ps := range lbSets {
+			for _, pd := range lbSeeds {
+				for _, pw := range []string{"", "newcomer"} {
+					for _, vs := range lbSets {
+						for _, vd := range lbSeeds {
+							s := base
+							s.PSet, s.PSeed, s.PWho, s.VSet, s.VSeed = ps, pd, pw, vs, vd
+							add(s)
+						}
 					}
 				}
 			}
 		}
 	}
 	if c.IsCert {
+		// quick tier: the proposer/precommit product is that of the other fixtures; here its two planes only
+		for _, a := range lbSets {
+			for _, b := range lbSeeds {
+				s := base
+				s.PSet, s.PSeed = a, b
+				add(s)
+				s = base
+				s.VSet, s.VSeed = a, b
+				add(s)
+			}
+		}
 		for _, cs := range lbCertSets {
 			for _, cd := range lbCertSeeds {
 				for _, vs := range lbSets {
-					if cs == "" && cd == "" {
-						continue // in the product above
-					}
 					s := base
 					s.CSet, s.CSeed, s.VSet = cs, cd, vs
-					out = append(out, s)
+					add(s)
 				}
 			}
 		}
@@ -380,7 +407,7 @@ func (x *ctx) checkLB(s LBSpec) {
 	}
 	if p := e.panicked(); p != nil {
 		r.Count("lookback: verifier_panicked", 1)
-		x.offerRaw("verifier panics on a header drawn against other look-back headers: "+panicSite(p.Where)+": "+normErr(p.Panic), "", nil,
+		x.offerRaw("", "verifier panics on a header drawn against other look-back headers: "+panicSite(p.Where)+": "+normErr(p.Panic), "", nil,
 			fmt.Sprintf("%02d|%s", s.deviations(), s.Key()), mc.Violation{Config: c.Name, Input: s,
 				Detail: fmt.Sprintf("%s panicked: %s (at %s)\n%s\n%s", p.Path, p.Panic, p.Where, describeLB(s), x.context())})
 		return
@@ -418,7 +445,9 @@ func (x *ctx) checkLB(s LBSpec) {
 		r.Count("lookback: VIOLATING_CASES_accepted_under_the_wrong_look_back", 1)
 		head := "accepted under the wrong look-back " + pathGroup(paths) + ": "
 		parts := s.parts()
-		x.offerRaw(head+strings.Join(parts, " + "), head, parts, fmt.Sprintf("%02d|%s", s.deviations(), s.Key()), mc.Violation{Config: c.Name, Input: s,
+		// one report per group of accepting entry points; the witness with the fewest deviating parts, and among
+		// those the one naming the fewest different headers, describes it
+		x.offerRaw(head, head+strings.Join(parts, " + "), "", nil, fmt.Sprintf("%02d|%02d|%s", s.deviations(), s.distinctNames(), s.Key()), mc.Violation{Config: c.Name, Input: s,
 			Detail: fmt.Sprintf("the real verifier accepts (%s) a header that carries a quorum only under look-back headers the protocol does not use.\n%s\nclaimed precommit weight %d (certificate %d)\noracle: %s\n%s\n%s",
 				strings.Join(paths, ","), describeLB(s), e.F.Claimed, e.F.CertClaimed, e.O, x.context(), x.lbContext())})
 	}
@@ -442,8 +471,8 @@ func (x *ctx) checkLB(s LBSpec) {
 	if len(rej) > 0 {
 		if s.honest() {
 			r.Count("lookback: VIOLATING_CASES_honest_header_rejected", 1)
-			sig := "rejected honest header " + pathGroup(rej) + ": every part drawn against the protocol's look-back headers, all look-back headers carrying different validator sets and seeds"
-			x.offerRaw(sig, "", nil, "00|"+s.Key(), mc.Violation{Config: c.Name, Input: s,
+			sig := "rejected honest header" + certTag(c) + " " + pathGroup(rej) + ": every part drawn against the protocol's look-back headers, all look-back headers carrying different validator sets and seeds"
+			x.offerRaw(honestGroup(c), sig, "", nil, "00|"+s.Key(), mc.Violation{Config: c.Name, Input: s,
 				Detail: fmt.Sprintf("the real verifier rejects (%s: %s) the honest header.\n%s\noracle: %s\n%s\n%s", strings.Join(rej, ","), firstErr(e, rej[0]), describeLB(s), e.O, x.context(), x.lbContext())})
 		} else {
 			r.Count("lookback: verifier_stricter_than_oracle_on_a_non_honest_vector", 1)
@@ -486,5 +515,5 @@ func (x *ctx) lbContext() string {
 func (x *ctx) exploreLB() {
 	specs := x.lbSpecs()
 	x.r.ForEach(len(specs), func(w, i int) { x.checkLB(specs[i]) })
-	x.r.Count("lookback: entry_points_per_case", int64(len(x.c.entries(true))))
+	x.r.Count("lookback: cases", int64(len(specs)))
 }
